@@ -33,7 +33,8 @@ let ity_of = function
   | "i8" -> { c16_bits = z_of_int 8; c16_signed = true } | "u8" -> { c16_bits = z_of_int 8; c16_signed = false }
   | "i16" -> { c16_bits = z_of_int 16; c16_signed = true } | "u16" -> { c16_bits = z_of_int 16; c16_signed = false }
   | "i32" -> { c16_bits = z_of_int 32; c16_signed = true } | "u32" -> { c16_bits = z_of_int 32; c16_signed = false }
-  | "i64" -> { c16_bits = z_of_int 64; c16_signed = true } | "u64" -> { c16_bits = z_of_int 64; c16_signed = false }
+  | "i64" | "ill" -> { c16_bits = z_of_int 64; c16_signed = true } | "u64" | "ull" -> { c16_bits = z_of_int 64; c16_signed = false }
+  | "ch" -> { c16_bits = z_of_int 8; c16_signed = true }
   | _ -> failwith "type"
 
 (* a random-access kind: operator table (depending on the convertibility flag), embedding of positions *)
@@ -47,13 +48,13 @@ let kind_of (ks : string) (n : int) : kind =
   let xs = contents n in
   let v1000 p = string_of_int (1000 + p) in
   match List.hd kp with
-  | "dyn" | "fv" | "fmrow" ->
+  | "dyn" | "fv" | "fmrow" | "dmrow" ->
       { ops = (fun conv -> c16_legacy_ops (c16_dense_prims xs) conv); rep = (fun p -> c16_dense_rep (z_of_int p));
         unrep = (fun x -> int_of_z (c16_dense_unrep x)); lo = -1; n; two = true; value = v1000; always = false; nplus = false; conv = true; arrow = false }
   | "gen" ->
       { ops = (fun conv -> c16_legacy_ops (c16_generic_prims xs) conv); rep = z_of_int; unrep = int_of_z; lo = -1; n; two = true;
         value = v1000; always = false; nplus = false; conv = true; arrow = false }
-  | "al" ->
+  | "al" | "al1" | "al8" ->          (* the chunk size N does not enter the iterator arithmetic: slots are absolute *)
       let s = int_of_string (List.nth kp 1) in
       let st = List.init s (fun _ -> z_of_int (-7)) @ xs in
       { ops = (fun conv -> c16_legacy_ops (c16_alist_prims (z_of_int s) (z_of_int n) st) conv);
@@ -70,6 +71,9 @@ let kind_of (ks : string) (n : int) : kind =
         rep = (fun p -> c16_ir_rep t from (z_of_int p)); unrep = (fun x -> int_of_z (c16_ir_unrep t from x));
         lo = (if Z.ltb (c16_tmin t) from then -1 else 0); n; two = false;
         value = (fun p -> string_of_z (Z.add from (z_of_int p))); always = true; nplus = true; conv = true; arrow = false }
+  | "nfptri" ->
+      { ops = (fun _ -> c16_nf_ops (c16_vec_base xs) (fun p -> c16_at xs p)); rep = z_of_int; unrep = int_of_z; lo = -1; n; two = false; value = v1000;
+        always = false; nplus = true; conv = true; arrow = false }
   | "nfman" | "nfptr" ->
       let xs' = xs in
       let star p = c16_at xs' p in
@@ -100,7 +104,7 @@ let combos = [ ("mm", true); ("mc", false); ("cm", true); ("cc", true) ]
 let tagged_prims ks n =
   let xs = contents n in
   match List.hd (String.split_on_char ':' ks) with
-  | "dyn" | "fv" | "fmrow" -> Some (c16_tag_prims (c16_dense_prims xs), (fun c p -> (z_of_int c, c16_dense_rep (z_of_int p))))
+  | "dyn" | "fv" | "fmrow" | "dmrow" -> Some (c16_tag_prims (c16_dense_prims xs), (fun c p -> (z_of_int c, c16_dense_rep (z_of_int p))))
   | "gen" -> Some (c16_tag_prims (c16_generic_prims xs), (fun c p -> (z_of_int c, z_of_int p)))
   | _ -> None
 let do_cmp ks n i j =
@@ -210,6 +214,9 @@ let idx_case base n i0 ops =
   let delta = List.fold_left (fun s o -> match o with C16Inc -> s + 1 | C16Dec -> s - 1
                                                      | C16PlusEq z -> s + int_of_z z | C16MinusEq z -> s - int_of_z z) 0 l in
   let o, rep, unrep = match base with
+    | "ir" -> let k = kind_of "ir:i32:1000" n in (k.ops true, k.rep, k.unrep)
+    | "al" -> let k = kind_of "al:2" n in (k.ops true, k.rep, k.unrep)
+    | "tr" -> let k = kind_of "tr" n in (k.ops true, k.rep, k.unrep)
     | "vec" -> (c16_nf_ops (c16_vec_base xs) (fun p -> c16_at xs p), z_of_int, int_of_z)
     | _ -> (c16_legacy_ops (c16_dense_prims xs) true, (fun p -> c16_dense_rep (z_of_int p)), (fun x -> int_of_z (c16_dense_unrep x))) in
   let step x op raw = (match raw.[0] with
@@ -219,7 +226,8 @@ let idx_case base n i0 ops =
   let p = unrep it in
   let tok p v = string_of_int p ^ ":" ^ (if p >= 0 && p < n then v else "-") in
   let (dit, dix) = c16_copy (it, ix) in
-  let mp = tok p (ovz (o.c16_o_star it)) and sp = tok delta (string_of_int (1000 + delta)) in
+  let sval d = if base = "tr" then string_of_int (3 * (1000 + d) + 1) else string_of_int (1000 + d) in
+  let mp = tok p (ovz (o.c16_o_star it)) and sp = tok delta (sval delta) in
   let si = string_of_z (Z.add (z_of_string i0) (z_of_int delta)) in
   ("pos=" ^ mp ^ " index=" ^ string_of_z (c16_idx_index (it, ix)) ^ " dindex=" ^ string_of_z (c16_idx_index (dit, dix)) ^ " dpos=" ^ tok (unrep dit) (ovz (o.c16_o_star dit)),
    "pos=" ^ sp ^ " index=" ^ si ^ " dindex=" ^ si ^ " dpos=" ^ sp)
@@ -601,6 +609,98 @@ let hyx_case t =
                 ("wtuple", zs (c16_hy_log C16Static w), zs w); ("wvec", zs (c16_hy_log C16Dynamic w), zs w) ]
   | _ -> ("BADCASE", "BADCASE")
 
+(* ------------------------------------------------------------------ dimension audit: aliasing, special members, histories, further roles *)
+let self_case ks n i j =
+  let base = List.hd (String.split_on_char ':' ks) in
+  if base = "sl" then
+    let e c = let x = sl_obj c i in b01 (c16_sl_facade_eq x x) ^ b01 (c16_sl_facade_ne x x) in
+    tokline [ ("i.self", e 'i', "10"); ("c.self", e 'c', "10"); ("m.self", e 'm', "10");
+              ("i.selfassign", b01 (c16_sl_facade_eq (c16_copy (sl_obj 'i' i)) (sl_obj 'i' i)), "1");
+              ("m.moved", b01 (c16_sl_facade_eq (c16_copy (sl_obj 'm' i)) (sl_obj 'i' i)), "1") ]
+  else
+  let k = kind_of ks n in
+  if i < k.lo || i > n || j < k.lo || j > n then ("BADCASE", "BADCASE") else
+  let variants = if k.two then [ "m."; "c." ] else [ "m." ] in
+  let o = k.ops true in
+  let pt = ptok k o and sp = spec_ptok k in
+  let a = k.rep i and b = k.rep j in
+  let one pre =
+    let (sx, sy) = c16_swap a b in
+    [ (pre ^ "self", cmp6 o a a, "100101:0"); (pre ^ "selfassign", pt (c16_copy a), sp i);
+      (pre ^ "addself", pt (o.c16_o_pluseq a (o.c16_o_diff a a)), sp i); (pre ^ "subself", pt (o.c16_o_minuseq a (o.c16_o_diff a a)), sp i);
+      (pre ^ "moved", pt (c16_copy a), sp i); (pre ^ "moveassign", pt (c16_copy a), sp i); (pre ^ "swap", pt sx ^ "/" ^ pt sy, sp j ^ "/" ^ sp i) ] in
+  tokline (List.concat (List.map one variants))
+
+let walk_case ks n ops =
+  let k = kind_of ks n in
+  let o = k.ops true in
+  let num s = z_of_int (int_of_string (String.sub s 1 (String.length s - 1))) in
+  let step (x, d) op = match op.[0] with
+    | '+' -> (o.c16_o_inc x, d + 1) | '-' -> (o.c16_o_dec x, d - 1)
+    | 'a' -> (snd (c16_post_inc o x), d + 1) | 'b' -> (snd (c16_post_dec o x), d - 1)
+    | 'c' | 'v' -> (c16_copy x, d)
+    | 'p' -> (o.c16_o_pluseq x (num op), d + int_of_z (num op)) | 'm' -> (o.c16_o_minuseq x (num op), d - int_of_z (num op))
+    | 'P' -> (o.c16_o_plus x (num op), d + int_of_z (num op)) | 'M' -> (o.c16_o_minus x (num op), d - int_of_z (num op))
+    | _ -> failwith "op" in
+  let (it, d) = List.fold_left step (k.rep 0, 0) ops in
+  tokline [ ("pos", ptok k o it, spec_ptok k d); ("dist", string_of_z (o.c16_o_diff it (k.rep 0)), string_of_int d) ]
+
+let hydyn_case xs =
+  let acc7 a x = Z.add (Z.mul (z_of_int 7) a) x in
+  tokline [ ("log", zs (c16_hy_log C16Dynamic xs), zs xs); ("acc", string_of_z (c16_hy_accumulate C16Dynamic acc7 xs (z_of_int 1)), string_of_z (c16_spec_fold acc7 xs (z_of_int 1)));
+            ("size", "D" ^ string_of_z (c16_hy_size C16Dynamic xs), "D" ^ string_of_int (List.length xs)) ]
+
+let trx2_case variant xs =
+  let n = List.length xs in
+  let zi = z_of_int in
+  let fuel = nat_of_int (n + 3) in
+  let elems f l = List.map (function Some v -> v | None -> failwith "deref") (res_zs (c16_tr_elems f l (nat_of_int (List.length l + 2)))) in
+  let at f l = List.init (List.length l) (fun i -> match c16_tr_at f l (zi i) with Some v -> v | None -> failwith "at") in
+  match variant with
+  | "nested" ->
+      let f x = Z.add (Z.mul (zi 2) x) (zi 1) and g y = Z.sub (Z.mul (zi 10) y) (zi 3) in
+      let inner = c16_tr_ops f xs in
+      let outer = c16_tr_over inner (function Some y -> Some (g y) | None -> None) in       (* a view whose underlying iterator is a view iterator *)
+      let el = List.map (function Some v -> v | None -> failwith "deref") (res_zs (c16_range_for outer fuel (c16_iterrange Z0 (zi n)))) in
+      let ats = List.init n (fun i -> match outer.c16_o_index Z0 (zi i) with Some v -> v | None -> failwith "at") in
+      let sp = zs (List.map (fun x -> g (f x)) xs) in
+      tokline [ ("elems", zs el, sp); ("at", zs ats, sp); ("rv", zs el, sp); ("size", string_of_z (c16_tr_size xs), string_of_int n);
+                ("dist", string_of_z (outer.c16_o_diff (zi n) Z0), string_of_int n) ]
+  | "fvbase" ->
+      let f x = Z.mul (zi 5) x in
+      let sir = c16_sirange_seq (ity_of "i32") (zi 2) (zi 6) in
+      tokline [ ("elems", zs (elems f xs), zs (List.map f xs)); ("at1", ovz (c16_tr_at f xs (zi 1)), string_of_z (f (List.nth xs 1)));
+                ("sir", zs (elems f sir), "10,15,20,25"); ("sirat", ovz (c16_tr_at f sir (zi 3)), "25") ]
+  | "itrange" ->
+      let f x = Z.sub x (zi 4) in
+      let r = c16_iterrange Z0 (zi n) in
+      let o = c16_tr_ops f xs in
+      tokline [ ("elems", zs (List.map (function Some v -> v | None -> failwith "d") (res_zs (c16_range_for o fuel r))), zs (List.map f xs));
+                ("empty", b01 (c16_tr_empty xs), b01 (n = 0)); ("copydist", string_of_z (o.c16_o_diff (snd (c16_copy r)) (fst (c16_copy r))), string_of_int n) ]
+  | "copy" ->
+      let f a b x = Z.add (Z.mul (zi a) x) (zi b) in
+      let neg = f (-1) 0 in
+      tokline [ ("copy", zs (elems (f 2 1) (c16_copy xs)), zs (List.map (f 2 1) xs)); ("source", zs (elems (f 0 7) [zi 9; zi 9]), "7,7");
+                ("assigned", zs (elems neg (c16_copy xs)), zs (List.map neg xs)); ("moved", zs (elems neg xs), zs (List.map neg xs));
+                ("selfassigned", zs (at neg xs), zs (List.map neg xs));
+                ("ircopy", string_of_z (c16_irange_size (ity_of "i32") (zi 2) (zi (2 + n))) ^ ":" ^ b01 (c16_irange_empty (zi 2) (zi (2 + n))), string_of_int n ^ ":" ^ b01 (n = 0));
+                ("irsource", string_of_z (c16_irange_size (ity_of "i32") Z0 Z0), "0") ]
+  | "twice" ->
+      let f x = Z.mul (zi 3) x in
+      let xs2 = List.map (fun x -> Z.add x (zi 1)) xs @ [zi 100] in
+      tokline [ ("first", zs (elems f xs), zs (List.map f xs)); ("second", zs (elems f xs), zs (List.map f xs)); ("after", zs (elems f xs2), zs (List.map f xs2));
+                ("ncalls", string_of_int (List.length (elems f xs) * 2 + List.length (elems f xs2)), string_of_int (3 * n + 1));
+                ("size", string_of_z (c16_tr_size xs2), string_of_int (n + 1)) ]
+  | "cat" ->
+      let f x = Z.mul (zi 4) x in
+      let o = c16_tr_ops f xs in
+      let rec back it acc = if n = 0 then acc else
+        let it' = o.c16_o_dec it in
+        let acc = acc @ [ (match o.c16_o_star it' with Some v -> v | None -> failwith "d") ] in
+        if o.c16_o_eq it' Z0 then acc else back it' acc in
+      tokline [ ("fwd", zs (elems f xs), zs (List.map f xs)); ("back", zs (back (zi n) []), zs (List.rev (List.map f xs))) ]
+  | _ -> ("BADCASE", "BADCASE")
+
 let () =
   let ic = open_in Sys.argv.(1) in
   (try while true do
@@ -628,6 +728,10 @@ let () =
         | "nstep" :: ks :: _ -> do_step ks (ios (nth 2)) (nth 3) (ios (nth 4)) (ios (nth 5))
         | "arrow" :: _ -> arrow_case (ios (nth 1)) (ios (nth 2))
         | "prim" :: kind :: _ -> prim_case kind (ios (nth 2)) (ios (nth 3)) (ios (nth 4))
+        | "self" :: ks :: _ -> self_case ks (ios (nth 2)) (ios (nth 3)) (ios (nth 4))
+        | "walk" :: ks :: _ -> walk_case ks (ios (nth 2)) (if List.length t > 3 && nth 3 <> "-" then split_on ',' (nth 3) else [])
+        | "hyx" :: "dyn" :: _ -> hydyn_case (if List.length t > 3 then zlist (nth 3) else [])
+        | "trx" :: ("nested" | "fvbase" | "itrange" | "copy" | "twice" | "cat" as v) :: _ -> trx2_case v (if List.length t > 2 then zlist (nth 2) else [])
         | "trx" :: v :: _ -> trx_case v (if List.length t > 2 then zlist (nth 2) else [])
         | "sparsex" :: _ -> sparsex_case (zlist (nth 2))
         | "rutil" :: _ -> rutil_case (zlist (nth 1))
